@@ -137,22 +137,26 @@ def weightedPos (n : Nat) (sumw : List α) (prob : α) : R Nat :=
   | some i => .ok i
   | none => if sumw.length < n then .error .ub else .ok (n - 1)
 
+/-- the position chosen by the weighted `pickOne` overloads among `n` elements:
+`sumw = cumSum(w); sumw /= sumw.back(); prob = U(0,1); first i < n with prob < sumw[i], else n-1` -/
+def weightedIndex (n : Nat) (w : List α) (prob : α) : R Nat :=
+  match normalize (cumSum w) with
+  | .error e => .error e
+  | .ok sumw => weightedPos n sumw prob
+
 /-- `T pickOne(std::vector<T>& v, std::vector<double>& w, bool replace)`; `prob` is the uniform
 draw with entry 1.  RandomTools.h:288-317 -/
 def pickOneW (v : List τ) (w : List α) (replace : Bool) (prob : α) : R (τ × List τ × List α) :=
   if v.isEmpty then .error .empty
-  else match normalize (cumSum w) with
+  else match weightedIndex v.length w prob with
     | .error e => .error e
-    | .ok sumw =>
-      match weightedPos v.length sumw prob with
-      | .error e => .error e
-      | .ok pos =>
-        match v[pos]? with
-        | none => .error .ub
-        | some e =>
-          if replace then .ok (e, v, w)
-          else if pos < w.length then .ok (e, swapPop v pos, swapPop w pos)
-          else .error .ub
+    | .ok pos =>
+      match v[pos]? with
+      | none => .error .ub
+      | some e =>
+        if replace then .ok (e, v, w)
+        else if pos < w.length then .ok (e, swapPop v pos, swapPop w pos)
+        else .error .ub
 
 /-- `T pickOne(const std::vector<T>& v, const std::vector<double>& w)`  RandomTools.h:333-352 -/
 def pickOneWConst (v : List τ) (w : List α) (prob : α) : R τ :=
@@ -486,7 +490,7 @@ def one : Expr := .lit 1 1
 def norm : Expr → Expr
   | .mul a b =>
     match norm a, norm b with
-    | .sqrt x, .sqrt y => if x = y then x else .mul (.sqrt x) (.sqrt y)
+    | .sqrt (.var x), .sqrt (.var y) => if x = y then .var x else .mul (.sqrt (.var x)) (.sqrt (.var y))
     | a', b' => .mul a' b'
   | .div a b =>
     match norm a, norm b with
